@@ -129,7 +129,9 @@ static void bfs_state_hook(const bfs_hist *h)
 /* ------------------------------------------------------------------ mode 1 */
 enum { F_NONE, F_REJECT, F_OWNER, F_MALFORMED, F_VANISH, F_DANGLING, F_OPTION, F_N };
 static const char *FN[F_N] = { "none", "callback-rejects", "foreign-owner", "malformed-line", "file-vanishes", "dangling-symlink", "unknown-option" };
-static const char *EPN[4] = { "econf_readFileWithCallback", "econf_readConfigWithCallback", "econf_readDirsWithCallback", "econf_readDirsHistoryWithCallback" };
+static const char *EPN[6] = { "econf_readFileWithCallback", "econf_readConfigWithCallback", "econf_readDirsWithCallback", "econf_readDirsHistoryWithCallback",
+                              "econf_readConfigWithCallback + CONFIG_DIRS option", "econf_readConfigWithCallback + CONFIG_DIRS option, drop-ins only (config name NULL)" };
+#define NEP 6
 static const char *UNI[T_MAXU] = { "10-a.conf", "9-b.conf", "B.conf", "README", "a.conf" };
 static int nu = 2, pairs;
 static char root[300], options[700];
@@ -145,9 +147,13 @@ static void setup(int ep)
   ts.ncd = 1; snprintf(ts.cd[0], sizeof ts.cd[0], ".conf.d");
   ts.nu = ep == 0 ? 0 : nu;
   for (int i = 0; i < ts.nu; i++) ts.uname[i] = UNI[i];
-  if (ep == 1) {
+  if (ep == 1 || ep == 4) {
     ts.nlayers = 3; const char *sub[3] = { "/usr/lib", "/run", "/etc" };
     for (int l = 0; l < 3; l++) snprintf(ts.layer_dir[l], sizeof ts.layer_dir[l], "%s%s/proj", root, sub[l]);
+  } else if (ep == 5) {
+    ts.nlayers = 3; const char *sub[3] = { "/usr/lib", "/run", "/etc" };
+    for (int l = 0; l < 3; l++) snprintf(ts.layer_dir[l], sizeof ts.layer_dir[l], "%s%s", root, sub[l]);
+    snprintf(ts.name, sizeof ts.name, "proj"); snprintf(ts.cd[0], sizeof ts.cd[0], ".d");
   } else if (ep == 0) { ts.nlayers = 1; snprintf(ts.layer_dir[0], sizeof ts.layer_dir[0], "%s/single", root); }
   else { ts.nlayers = 2; snprintf(ts.layer_dir[0], sizeof ts.layer_dir[0], "%s/usr/etc", root); snprintf(ts.layer_dir[1], sizeof ts.layer_dir[1], "%s/etc", root); }
   t_build_contents(); t_disk = t_content; t_setup_dirs();
@@ -155,7 +161,7 @@ static void setup(int ep)
 
 static void gen(void)
 {
-  t_gen_state(&want, 2);
+  t_gen_state(&want, mc_tag == 5 ? 1 : 2);
   int list[T_MAXF]; int n = t_ref_list(&want, list);
   if (mc_tag == 0 && want.mainst[0] == M_ABSENT) n = 0;
   f1kind = mc_choose(F_N); f1pos = 0; f2kind = F_NONE; f2pos = 0;
@@ -219,9 +225,10 @@ static void exec(void)
   ledger_reset(); ledger_in_lib = 1;
   econf_file *kf = SENT_KF, *own = NULL; econf_file **hist = SENT_HIST; size_t hsize = 777;
   econf_err rc = ECONF_SUCCESS;
-  const char *opt_ok = mc_tag == 1 ? "JOIN_SAME_ENTRIES=1;ROOT_PREFIX=" : "";
-  if (mc_tag == 1 || unknown_option) {
-    snprintf(options, sizeof options, "%s%s%s", opt_ok, mc_tag == 1 ? root : "", unknown_option ? (mc_tag == 1 ? ";NO_SUCH_OPTION=1" : "NO_SUCH_OPTION=1") : "");
+  int cfgep = mc_tag == 1 || mc_tag == 4 || mc_tag == 5;
+  const char *opt_ok = mc_tag == 1 ? "JOIN_SAME_ENTRIES=1;ROOT_PREFIX=" : mc_tag == 4 ? "CONFIG_DIRS=.conf.d;ROOT_PREFIX=" : mc_tag == 5 ? "CONFIG_DIRS=.x.d:.y.d;PYTHON_STYLE=1;ROOT_PREFIX=" : "";
+  if (cfgep || unknown_option) {
+    snprintf(options, sizeof options, "%s%s%s", opt_ok, cfgep ? root : "", unknown_option ? (cfgep ? ";NO_SUCH_OPTION=1" : "NO_SUCH_OPTION=1") : "");
     rc = econf_newKeyFile_with_options(&own, options);
     mc_st->libcalls++;
     if (unknown_option) {
@@ -232,10 +239,12 @@ static void exec(void)
       goto restore;
     }
     if (rc != ECONF_SUCCESS) { mc_fail(sig.s, "options refused: %d", (int)rc); ledger_in_lib = 0; goto restore; }
+    if (!cfgep) { econf_freeFile(own); own = NULL; }
   }
   switch (mc_tag) {
   case 0: rc = use_cb ? econf_readFileWithCallback(&kf, t_path[0], "=", "#", cb, &cbx) : econf_readFile(&kf, t_path[0], "=", "#"); break;
-  case 1: kf = own; rc = use_cb ? econf_readConfigWithCallback(&kf, "proj", "/usr/lib", "cfg", "conf", "=", "#", cb, &cbx) : econf_readConfig(&kf, "proj", "/usr/lib", "cfg", "conf", "=", "#"); break;
+  case 1: case 4: case 5: kf = own;
+    rc = use_cb ? econf_readConfigWithCallback(&kf, "proj", "/usr/lib", mc_tag == 5 ? NULL : "cfg", "conf", "=", "#", cb, &cbx) : econf_readConfig(&kf, "proj", "/usr/lib", mc_tag == 5 ? NULL : "cfg", "conf", "=", "#"); break;
   case 2: rc = use_cb ? econf_readDirsWithCallback(&kf, ts.layer_dir[0], ts.layer_dir[1], "cfg", "conf", "=", "#", cb, &cbx) : econf_readDirs(&kf, ts.layer_dir[0], ts.layer_dir[1], "cfg", "conf", "=", "#"); break;
   default: rc = use_cb ? econf_readDirsHistoryWithCallback(&hist, &hsize, ts.layer_dir[0], ts.layer_dir[1], "cfg", "conf", "=", "#", cb, &cbx)
                        : econf_readDirsHistory(&hist, &hsize, ts.layer_dir[0], ts.layer_dir[1], "cfg", "conf", "=", "#"); break;
@@ -322,7 +331,7 @@ int main(int argc, char **argv)
     return mc_replay(gen, exec, mc_opt.case_id);
   }
   int complete = 1;
-  for (int ep = 0; ep < 4 && complete; ep++) { mc_tag = ep; setup(ep); complete = mc_explore(gen, exec, 0, 0); }
+  for (int ep = 0; ep < NEP && complete; ep++) { mc_tag = ep; setup(ep); complete = mc_explore(gen, exec, 0, 0); }
   if (complete) mc_st->bound_completed = nu;
   mc_finish();
   return 0;
